@@ -829,7 +829,7 @@ func runC17(w *W) {
 	if o.Mapping && o.RHVF && o.Traceback && bodyKind == hbJSON && t.Chance(1, 40, "sch.hugeroot") {
 		go_.NRoot = 4100 + t.Intn(300, "sch.hugeroot.n")
 		go_.AnnoPct, go_.Containers, go_.Nested = 2, false, false
-		j2tExtraSteps = uint64(go_.NRoot) * 2000
+		j2tExtraSteps = uint64(go_.NRoot) * 120
 		w.Count("huge_root_worlds")
 		w.Sig("hugeroot")
 	}
